@@ -137,6 +137,39 @@ def large_files(run, h, rng, stats):
         shutil.rmtree(root, ignore_errors=True)
 
 
+def slow_siblings(run, h, stats):
+    """siblings that keep the parser busy for many seconds each (tens of thousands of unterminated string literals:
+    tree-sitter's error recovery is quadratic there), one per worker and all taken before F: whatever the scanner does
+    about such files, F's report is the one it has alone"""
+    root = C.scratch("c08slow")
+    try:
+        fpath = os.path.join(root, "F.java")
+        open(fpath, "w").write("package demo;\n\npublic class F {\n    private int total = 0;\n\n    public void run() {\n        int step = 2;\n        helper(step);\n    }\n\n"
+                               "    void helper(int amount) {\n        total = total + amount;\n    }\n}\n")
+        alone = h.call(op="scan", dir=root, graph="sl", timeout=300)
+        if alone.get("outcome") != "ok":
+            return
+        ref = restricted(alone, fpath)
+        for i in range(NUM_WORKERS):
+            open(os.path.join(root, "A%d.java" % i), "w").write('"abc\n' * 20000)
+        both = h.call(op="scan", dir=root, graph="sl", timeout=900)
+        run.count(("slow-siblings", NUM_WORKERS))
+        stats["slow_sibling_scans"] += 1
+        if both.get("outcome") != "ok":
+            run.violation("C08:scan-" + str(both.get("outcome")), "scan of a small file next to %d siblings of 20000 unterminated literals each ends with %s" % (NUM_WORKERS, both.get("outcome")),
+                          dict(context="slow-siblings", generator="checks/c08.py slow_siblings", panic=both.get("panic")))
+            return
+        got = restricted(both, fpath)
+        if got != ref:
+            miss = [json.loads(ref[0][i]) for i in list(set(ref[0]) - set(got[0]))[:3]]
+            extra = [json.loads(got[0][i]) for i in list(set(got[0]) - set(ref[0]))[:3]]
+            run.violation("C08:context-changes-file-report", "next to %d siblings that each take the parser many seconds (20000 lines `\"abc`), F.java is reported without %d of its %d entities and with %d others" %
+                          (NUM_WORKERS, len(set(ref[0]) - set(got[0])), len(ref[0]), len(set(got[0]) - set(ref[0]))),
+                          dict(context="slow-siblings", hidden=miss, added=extra, generator="checks/c08.py slow_siblings"))
+    finally:
+        shutil.rmtree(root, ignore_errors=True)
+
+
 def path_suffix_collision(run, h, stats):
     """The recorded finding C08:path-suffix-collision, reproduced on purpose: identities of expression entities are
     SHA-256(kind ++ text ++ absolute path) without a separator, so `a/b` in <root>/<root>/X.java and `a/b<root>` in
@@ -192,6 +225,7 @@ def run(run):
     try:
         path_suffix_collision(run, h, stats)
         large_files(run, h, rng, stats)
+        slow_siblings(run, h, stats)
         for case in range(4 if quick else 30):
             root = C.scratch("c08")
             os.chmod(root, 0o755)
